@@ -165,6 +165,33 @@ fn check(prop: &str, tier: &str) -> i32 {
     let _ = std::fs::remove_dir_all(&work);
     std::fs::create_dir_all(&work).unwrap_or_else(|e| die(&format!("{e}")));
     let exe = std::env::current_exe().unwrap_or_else(|e| die(&format!("{e}")));
+    // change-aware budget (C15): scenario files whose content differs from what the corpus was
+    // recorded against get a much deeper seeded exploration — a rare draw of an edited
+    // generator is exactly what a fixed number of runs per file would miss
+    let mut extra: Vec<u64> = vec![];
+    let mut changed_files: Vec<String> = vec![];
+    if property == "C15" {
+        let known: BTreeMap<String, String> = std::fs::read_to_string(root.join("corpus").join("scenario_digests.json")).ok().and_then(|t| serde_json::from_str(&t).ok()).unwrap_or_default();
+        if !known.is_empty() {
+            let nf = env.scenarios.len() as u64;
+            let changed: Vec<u64> = env.scenarios.iter().enumerate().filter(|(_, s)| known.get(&s.rel) != Some(&hex(s.digest))).map(|(i, _)| i as u64).collect();
+            if !changed.is_empty() {
+                let cap: u64 = env_u64("MTSIM_EXTRA_CAP").unwrap_or(if tier == "thorough" { 4_000_000 } else { 480_000 });
+                let per = (cap / changed.len() as u64).min(if tier == "thorough" { 200_000 } else { 24_000 });
+                for r in 0..per {
+                    for c in &changed {
+                        extra.push((reps + r) * nf + c);
+                    }
+                }
+                changed_files = changed.iter().map(|c| env.scenarios[*c as usize].rel.clone()).collect();
+            }
+        }
+    }
+    let extra_path = work.join("extra.idx");
+    if !extra.is_empty() {
+        std::fs::write(&extra_path, extra.iter().map(|i| i.to_string()).collect::<Vec<_>>().join("\n")).unwrap_or_else(|e| die(&format!("{e}")));
+        println!("mtsim: {} scenario file(s) differ from the recorded digests ({}{}): {} extra runs", changed_files.len(), changed_files.iter().take(4).cloned().collect::<Vec<_>>().join(", "), if changed_files.len() > 4 { ", …" } else { "" }, extra.len());
+    }
     println!("mtsim check property={property} engine={engine_id} tier={tier} seed={base} runs={total} ({} scenario files x {reps}) + {} corpus runs, workers={workers}", env.scenarios.len(), load_corpus(property).len());
     let mut kids = vec![];
     for p in 0..workers {
@@ -172,6 +199,7 @@ fn check(prop: &str, tier: &str) -> i32 {
         let child = Command::new(&exe)
             .args(["worker", engine_id, &base.to_string(), &p.to_string(), &workers.to_string(), &total.to_string()])
             .arg(&pre)
+            .arg(&extra_path)
             .spawn()
             .unwrap_or_else(|e| die(&format!("spawn worker: {e}")));
         kids.push((p, pre, child));
@@ -275,6 +303,34 @@ fn check(prop: &str, tier: &str) -> i32 {
         }
         reported.push(json!({"class": v.class, "runs": n, "replay": v.replay, "detail": v.detail}));
     }
+    // micro-schedule stage (C13): result file written by tools/micro.sh just before this driver ran
+    let mut micro: Option<Value> = None;
+    if property == "C13" {
+        let mp = root.join("work").join("C13-micro.json");
+        if let Ok(t) = std::fs::read_to_string(&mp) {
+            let m: Value = serde_json::from_str(&t).unwrap_or_else(|e| die(&format!("C13-micro.json: {e}")));
+            if m["harness_errors"].as_array().is_some_and(|a| !a.is_empty()) {
+                die(&format!("micro-schedule stage: {}", m["harness_errors"]));
+            }
+            for v in m["violations"].as_array().cloned().unwrap_or_default() {
+                let class = v["class"].as_str().unwrap_or("").to_string();
+                let replay = v["replay"].as_str().unwrap_or("").to_string();
+                if let Some(k) = known.findings.iter().find(|k| k.status == "known" && k.property == "C13" && k.class == class) {
+                    println!("KNOWN-FINDING: property=C13 {} [{}] (replay={})", k.what, class, replay);
+                    known_hits.push(class.clone());
+                } else {
+                    new_violations += 1;
+                    println!("VIOLATION property=C13 replay={replay}");
+                    println!("  class: {class}   ({} interleaving(s))", v["runs"]);
+                    println!("  detail: {}", v["detail"].as_str().unwrap_or(""));
+                    println!("  replay: ./check replay {replay}   (one Miri seed = one exactly repeatable interleaving)");
+                }
+                reported.push(v);
+            }
+            let _ = std::fs::remove_file(&mp);
+            micro = Some(m);
+        }
+    }
     // classes that were counted but never shrunk (cap per worker): still violations
     for (class, n) in &vcounts {
         if !seen.contains(class) {
@@ -309,12 +365,12 @@ fn check(prop: &str, tier: &str) -> i32 {
         "wall_s": wall,
         "violations": new_violations,
         "coverage": {
-            "evaluations": runs,
+            "evaluations": runs + micro.as_ref().and_then(|m| m["interleavings_executed"].as_u64()).unwrap_or(0),
             "distinct_nontrivial": fps.len(),
             "rule": dispatch!(prop, E => rule_text(<E as Engine>::PROPERTY)),
             "samples": samples,
             "technique": "deterministic simulation with fault injection: seeded search over entropy streams, wall-clock faults and caller schedules",
-            "runs": runs, "corpus_runs": corpus_runs, "corpus_candidate_keys_reached": cand.len(), "nontrivial_runs": nontrivial, "discarded_runs": discarded, "discard_reasons": discard_reasons,
+            "runs": runs, "corpus_runs": corpus_runs, "extra_runs_on_changed_scenario_files": extra.len(), "changed_scenario_files": changed_files, "corpus_candidate_keys_reached": cand.len(), "nontrivial_runs": nontrivial, "discarded_runs": discarded, "discard_reasons": discard_reasons,
             "runs_per_hour": if wall > 0.0 { (runs as f64 / wall * 3600.0) as u64 } else { 0 },
             "seeds_per_hour": if wall > 0.0 { (runs as f64 / wall * 3600.0) as u64 } else { 0 },
             "simulated_time_covered_s": (sim_ns / 1_000_000_000) as i64,
@@ -330,6 +386,7 @@ fn check(prop: &str, tier: &str) -> i32 {
             "known_findings_hit": known_hits,
             "seam_selftest": st,
             "determinism": det,
+            "micro_schedule_stage": micro,
             "workers": workers,
             "global_seeds": reports.iter().map(|r| hex(r.global_seed)).collect::<Vec<_>>(),
             "components": {
@@ -468,7 +525,8 @@ fn main() {
             }
             let env = Env { scenarios: scen::load_all().unwrap_or_else(|e| die(&e)) };
             let n = |i: usize| args[i].parse::<u64>().unwrap_or_else(|_| die("bad number"));
-            let r = dispatch!(args[2].as_str(), E => worker::<E>(&env, n(3), n(4), n(5), n(6), &PathBuf::from(&args[7])));
+            let extra: Vec<u64> = args.get(8).and_then(|f| std::fs::read_to_string(f).ok()).map(|t| t.lines().filter_map(|l| l.trim().parse().ok()).collect()).unwrap_or_default();
+            let r = dispatch!(args[2].as_str(), E => worker::<E>(&env, n(3), n(4), n(5), n(6), &PathBuf::from(&args[7]), &extra));
             if let Err(e) = r {
                 die(&e);
             }
@@ -509,6 +567,51 @@ fn main() {
                 println!("nontrivial={} discard={:?} harness={:?}", o.nontrivial, o.discard, o.harness_error);
                 if let Some(v) = o.violation { println!("VIOLATION {} :: {}", v.class, v.detail); }
             });
+        }
+        "export-subjects" => {
+            // subjects for the micro-schedule tier (miri/subjects.json): per message type the
+            // multi-error messages with the most errors / most distinct codes, taken from the
+            // C13 corpus and a seeded batch
+            let out_path = args.get(2).unwrap_or_else(|| die("usage: export-subjects <out.json> [runs]"));
+            let n_runs: u64 = args.get(3).and_then(|s| s.parse().ok()).unwrap_or(6000);
+            let env = Env { scenarios: scen::load_all().unwrap_or_else(|e| die(&e)) };
+            let base = env_u64("VERIF_SEED").unwrap_or(DEFAULT_SEED);
+            warm_up::<c13::C13>(&env, derive(base, "global", 0));
+            let mut specs: Vec<c13::Spec> = load_corpus("C13").into_iter().filter_map(|v| serde_json::from_value(v).ok()).collect();
+            for i in 0..n_runs {
+                specs.push(<c13::C13 as Engine>::plan(&env, base, i));
+            }
+            let mut best: BTreeMap<String, Vec<(usize, usize, Value)>> = BTreeMap::new();
+            for sp in &specs {
+                let (o, _) = <c13::C13 as Engine>::execute(&env, sp);
+                if o.violation.is_some() || o.discard.is_some() {
+                    continue;
+                }
+                for a in o.artifacts {
+                    let codes: Vec<String> = a["codes"].as_array().map(|c| c.iter().filter_map(|x| x.as_str().map(|s| s.to_string())).collect()).unwrap_or_default();
+                    let mut d = codes.clone();
+                    d.sort();
+                    d.dedup();
+                    // prefer many errors of FEW distinct codes (the same rule firing in several transactions) and many distinct codes
+                    let e = best.entry(a["mt"].as_str().unwrap_or("").to_string()).or_default();
+                    e.push((codes.len(), d.len(), a));
+                }
+            }
+            let mut outv: Vec<Value> = vec![];
+            for (_mt, mut v) in best {
+                v.sort_by(|a, b| (b.0 - b.1).cmp(&(a.0 - a.1)).then(b.0.cmp(&a.0)));
+                if let Some(x) = v.first() {
+                    outv.push(x.2.clone());
+                }
+                v.sort_by(|a, b| b.1.cmp(&a.1).then(b.0.cmp(&a.0)));
+                if let Some(x) = v.first() {
+                    if !outv.contains(&x.2) {
+                        outv.push(x.2.clone());
+                    }
+                }
+            }
+            std::fs::write(out_path, serde_json::to_string_pretty(&outv).unwrap()).unwrap_or_else(|e| die(&format!("{e}")));
+            println!("exported {} subjects", outv.len());
         }
         "replay" => {
             let path = args.get(2).unwrap_or_else(|| die("usage: replay <file>"));
